@@ -12,3 +12,16 @@ theorem tie_C20_precision : Generated.proto_PrecisionMax = 9 ∧ Generated.proto
 
 /-- each scale of `Interval.Add` calls the time package with the unit and multiplier of the model -/
 theorem tie_C20_interval_rows : Generated.intervalRows = intervalTable := by decide
+
+/-- the 128/256-bit wire helpers place the 64-bit words in order of significance (little-endian image of the
+number), each through the little-endian accessor, and the reader takes every word from where the writer put it -/
+theorem tie_C20_wide_layout :
+    Generated.wide_binPutUInt128 = [(0, 8, "Low", "binary.LittleEndian.PutUint64"), (8, 16, "High", "binary.LittleEndian.PutUint64")] ∧
+    Generated.wide_binUInt128 = [(0, 8, "Low", "binary.LittleEndian.Uint64"), (8, 16, "High", "binary.LittleEndian.Uint64")] ∧
+    Generated.wide_binPutUInt256 =
+      [(0, 8, "Low.Low", "binary.LittleEndian.PutUint64"), (16, 24, "High.Low", "binary.LittleEndian.PutUint64"),
+       (24, 32, "High.High", "binary.LittleEndian.PutUint64"), (8, 16, "Low.High", "binary.LittleEndian.PutUint64")] ∧
+    Generated.wide_binUInt256 =
+      [(0, 8, "Low.Low", "binary.LittleEndian.Uint64"), (16, 24, "High.Low", "binary.LittleEndian.Uint64"),
+       (24, 32, "High.High", "binary.LittleEndian.Uint64"), (8, 16, "Low.High", "binary.LittleEndian.Uint64")] := by
+  decide
